@@ -131,6 +131,8 @@ def run(model, rep, tier):
                qual='GFCrystalcalc.' + m)
     # ---- SetRates is memoryless: G depends on the current rates only
     memoryless_setters(model, rep, [('GFcalc', 'GFCrystalcalc', 'SetRates')])
+    from ._common import inverse_map_placed
+    inverse_map_placed(model, rep, [('GFcalc', 'GFCrystalcalc', '__init__', 'invmap')])
     # any early-return guard in the calculator compares every argument the skipped body reads (none exists today)
     from .C14 import _memo
     rep.rule('memo-key-complete', 'an early-return guard compares every parameter the skipped body reads')
